@@ -139,8 +139,10 @@ func runValidOps(r *sse.ValidReplayer, now *time.Time, ops []val.V, f *finalizer
 			case 1:
 				w := &scriptWriter{script: scriptOf(op.At(4))}
 				_ = r.Replay(sse.Subscription{Client: w, LastEventID: lastID(op.At(2)), Topics: op.At(3).Strs()})
-			default:
+			case 2:
 				r.GC()
+			default:
+				r.GCInterval = time.Duration(op.At(2).Signed())
 			}
 		}()
 	}
